@@ -279,7 +279,7 @@ def cases(draw):
 
 class Ops(Facet):
     name = "ops"
-    examples = {"quick": 12000, "thorough": 200000}
+    examples = {"quick": 12000, "thorough": 600000}
     shards = {"quick": 16, "thorough": 16}
 
     def strategy(self, tier):
